@@ -389,7 +389,7 @@ def run(prop, tier, seed, replay):
             st['sizes']['bundled:%d-lines' % (len(oc.doc) // 100 * 100)] += 1
             handle('bundled/' + fn, text, oc, tmp)
         # 3. generated designs, rendered by the independent writer
-        n_plain, n_quirk, n_mal = (2500, 40, 1000) if tier != 'thorough' else (40000, 400, 30000)
+        n_plain, n_quirk, n_mal = (1600, 25, 600) if tier != 'thorough' else (40000, 400, 30000)
         if os.environ.get('VERIF_EBLIF_COUNTS'):        # experiments only: plain,quirk,malformed
             n_plain, n_quirk, n_mal = [int(x) for x in os.environ['VERIF_EBLIF_COUNTS'].split(',')]
         batch = []
